@@ -195,6 +195,16 @@ static void mon_net_waits(const char *after)
       continue; /* not (re)sent at this instant */
     }
     wait_us = tv_to_us(&q->timeout) - tv_to_us(&q->ts);
+    {
+      /* remember, with the transmission, how long the library said it would wait for this attempt */
+      int x;
+      for (x = sim_ntx - 1; x >= 0 && sim_tx[x].t == sim_now_us; x--) {
+        if (sim_tx[x].qid == q->qid) {
+          sim_tx[x].lib_timeout_after_us = wait_us;
+          break;
+        }
+      }
+    }
     MON_EVAL("net_wait_bounds");
     if (wait_us < (int64_t)floor_ms * 1000) {
       vh_violation("net:wait-below-floor", "after %s: query id %u try %zu waits %lld us < floor %zu ms (timeout opt %zu, maxtimeout %zu)",
